@@ -54,6 +54,33 @@ def nestings():
     return out
 
 
+def wide_tokens(quick):
+    """every token of every seed sentence replaced by a long string / code block / unterminated string whose first multi-byte
+    character starts at byte 1..33 of the token (2-, 3- and 4-byte characters): each error site of the grammar meets a token
+    that a message or a range computed in bytes would cut inside a character"""
+    import re
+    out = []
+    chars = ["\u00e9", "\u65e5", "\U0001F600"]
+    n = 0
+    for sd in SEEDS:
+        toks = re.findall(r'"(?:[^"\\]|\\.)*"|\[\{.*?\}\]|/\*.*?\*/|//[^\n]*|#[a-z]+|![a-z]+|[A-Za-z_0-9]+|\.\.\.|\S', sd)
+        for i in range(len(toks)):
+            for pad in range(0, 33):
+                for ci, c in enumerate(chars):
+                    if quick and (i + pad + ci) % 3:
+                        continue
+                    n += 1
+                    kind = n % 3
+                    if kind == 0:
+                        w = '"' + "a" * pad + c + c + " tail\""
+                    elif kind == 1:
+                        w = "[{" + "x" * pad + c + c + c + " }]"
+                    else:
+                        w = '"' + "b" * pad + c + " never closed\n"
+                    out.append(" ".join(toks[:i] + [w] + toks[i + 1:]))
+    return out
+
+
 def run(ck):
     ck.proof = core.proof_stage("C02")
     if not ck.proof["ok"]:
@@ -67,6 +94,7 @@ def run(ck):
             cuts.append(sd[:i])
     streams["cut_everywhere"] = cuts
     streams["nesting"] = nestings()
+    streams["wide_tokens"] = wide_tokens(ck.tier == "quick")
     worst = {"impl": 0.0, "model": 0.0}
     for name, texts in streams.items():
         if not texts:
